@@ -661,4 +661,22 @@ theorem C16_fresh_ids (u : Nat → String) (hu : Function.Injective u) (root t' 
           have : 0 < (drawn u s (substT u (idsOf root) root s).2).count x := by omega
           exact mem_drawn u s _ x (List.count_pos_iff.mp this)
 
+/-- exact bookkeeping of nodes through expansion: the nodes of the result together with the discarded `references` subtrees are,
+    as multisets of ids, the nodes of the original together with the copies drawn from the supply — nothing else appears,
+    nothing else disappears -/
+theorem C16_ids_exact (u : Nat → String) (root t' : Tree) (s : Nat) (h : expandT u root s = some t') :
+    List.Perm (t'.ids ++ refIdsT root) (root.ids ++ drawn u s (substT u (idsOf root) root s).2) := by
+  unfold expandT at h
+  simp only at h
+  split at h
+  · cases h
+  · split at h
+    · cases h
+    · simp only [Option.some.injEq] at h
+      subst h
+      rw [List.perm_iff_count]
+      intro x
+      rw [List.count_append, List.count_append]
+      exact substT_ids_exact u (idsOf root) x root s
+
 end Metapype
